@@ -148,6 +148,13 @@ class C17(Check):
         add("keccak -", "kat")
         add("keccak " + b"abc".hex(), "kat")
         add("keccak " + b"The quick brown fox jumps over the lazy dog".hex(), "kat")
+        # messages that LOOK like an encoding of other data: hex text with and without prefix, base58 text, JSON, decimal digits -
+        # the hash is of the bytes given, whatever they spell
+        for t in (b"0x", b"0x00", b"0X00", b"0x0", b"0xdeadbeef", b"0x" + b"ab" * 32, b"0x" + b"00" * 64, b"00", b"deadbeef", b"ab" * 32,
+                  b"DEADBEEF", b"0x00 ", b" 0x00", b"0x00\n", b"\"0x00\"", b"[1,2,3]", b"{\"a\":1}", b"null", b"1234567890", b"-1",
+                  b"4ADT1BtbxqEWeMKp9GgPr2NeyJXXtNxvoDawpyA4WpzFcGcoHUvXeijE66DNfohE9r1bQYaBiQjEtKE7CtkTdLwiDznFzra",
+                  b"base64:AAAA", b"AAAA", b"=?utf-8?", b"%30%78", b"\\x00", b"0b1010", b"0o17", b"#00ff00"):
+            add("keccak " + t.hex(), "text-that-looks-like-an-encoding")
         for n in range(0, 1101):
             boundary = n % 136 in (133, 134, 135, 0, 1, 2, 3)
             cls = "len-boundary" if boundary else "len"
